@@ -70,7 +70,7 @@ def build_harness(name):
     if spec.get('ubsan', True):
         san += UBSAN
     san += spec.get('extra_san', [])
-    cflags = CCOMMON + san + spec.get('cflags', [])
+    cflags = CCOMMON + san + spec.get('cflags', []) + shlex.split(os.environ.get('VERIF_EXTRA_CFLAGS', ''))
     cmds, objs = [], []
     cc = spec.get('cc', 'gcc')
     for src in spec.get('repo', []):
